@@ -566,6 +566,45 @@ pub fn gen_cfgrun(seed: u64, n: usize) -> Vec<Scenario> {
     out
 }
 
+/// TCP probes (ConfTcp): the table of pending connects - answered, refused, expiring and piling up beyond its capacity.
+pub fn gen_tcp(seed: u64, n: usize) -> Vec<Scenario> {
+    let mut v = gen_loop(seed ^ 0x7c90, n, "tcp");
+    let mut rng = StdRng::seed_from_u64(seed ^ 0x5eed_7c90);
+    for (i, sc) in v.iter_mut().enumerate() {
+        sc.proto = "tcp".into();
+        sc.strat = "classic".into();
+        sc.ports = (*pick(&mut rng, &["src", "dest"])).into();
+        sc.privileged = true;
+        sc.net.late_pct = 0;
+        match i % 3 {
+            0 => {
+                // a target that never answers, short rounds and a long connect timeout: connects pile up
+                sc.first_ttl = 1;
+                sc.max_ttl = *pick(&mut rng, &[16, 64]);
+                sc.max_inflight = 24;
+                sc.init_seq = 33434;
+                sc.min_round_us = 0;
+                sc.max_round_us = *pick(&mut rng, &[10_000, 20_000]);
+                sc.grace_us = 1_000;
+                sc.read_timeout_us = 1_000;
+                sc.tcp_timeout_us = *pick(&mut rng, &[200_000, 1_000_000, 5_000_000]);
+                sc.max_rounds = *pick(&mut rng, &[12, 30]);
+                for p in &mut sc.topo.paths {
+                    p.target_silent = true;
+                }
+                sc.max_samples = 1;
+                sc.snap = "none".into();
+            }
+            1 => {
+                // connect timeouts of a few hop delays: entries expire while later ones are answered
+                sc.tcp_timeout_us = sc.net.hop_delay_us * rng.random_range(1..10);
+            }
+            _ => {}
+        }
+    }
+    v
+}
+
 /// Route changes (C10): one responsive path replaced by another responsive path of a different length, nothing
 /// lost and rounds long enough to walk the whole path: from the round after the change the reported path length is
 /// the new distance.
